@@ -135,7 +135,7 @@ class C12(Check):
                 for q in rnd:
                     info[q["id"]] = q
                     tasks[q["id"]] = asyncio.ensure_future(
-                        ec.roundtrip(ECCmd.FPRD, q["id"], 0x10, data=bytes((q["id"] + k) & 0xff for k in range(q["len"]))))
+                        ec.roundtrip(ECCmd.FPRD, q["id"], 0x10, data=bytes([q["id"] & 0xff]) * q["len"]))
                 await asyncio.sleep(0)
                 for q in rnd:
                     if q["cancel"] == "before":
